@@ -1658,6 +1658,7 @@ class RTCSctpTransport(AsyncIOEventEmitter):
 
         while self._sent_queue and self._sent_queue[0]._abandoned:
             chunk = self._sent_queue.popleft()
+            self._flight_size_decrease(chunk)
             self._advanced_peer_ack_tsn = chunk.tsn
             if not (chunk.flags & SCTP_DATA_UNORDERED):
                 self._forward_tsn_streams[chunk.stream_id] = chunk.stream_seq
